@@ -15,6 +15,11 @@ type StrVal struct{ b []*Term }
 type PtrVal struct {
 	obj  int
 	path []int
+	// symbolic element pointer: path names an array of scalars, the element index is sym (< symN).
+	// Only ever created for an IndexAddr whose sole uses are loads.
+	sym  *Term
+	symN int
+	symOff int
 }
 type SliceVal struct {
 	obj         int
